@@ -92,7 +92,7 @@ def build(pid):
 
 # supplementary translation ties (harness/py2lean.py -> lean/Serif/Gen/Translated.lean -> lean/Serif/Tie/*.lean)
 TIES = {"C03": ["Serif.Tie.Typing"], "C04": ["Serif.Tie.Typing"], "C08": ["Serif.Tie.Typing"], "C07": ["Serif.Tie.Index"],
-        "C18": ["Serif.Tie.Names"], "C16": ["Serif.Tie.Fingerprint"], "C17": ["Serif.Tie.ColumnMap"]}
+        "C18": ["Serif.Tie.Names"], "C16": ["Serif.Tie.Fingerprint"], "C17": ["Serif.Tie.ColumnMap"], "C19": ["Serif.Tie.Csv"]}
 
 
 def build_ties(pid):
